@@ -94,7 +94,13 @@ def evaluate(ctx):
     rows = vlib.read_tsv(os.path.join(ctx.run_dir, "dce.cases.tsv")) if ok else []
     srcs, cases, found = {}, {}, []
     streams, tags = {}, {}
+    stages = {}
     for r in rows:
+        if r[0].startswith("#"):
+            continue
+        if r[1] == "STAGE":
+            stages.setdefault(r[0], {})[r[2]] = r[3]
+            continue
         if r[1] == "SRC":
             srcs[r[0]] = vlib.unesc(r[2])
         elif r[1] == "CASE":
@@ -111,6 +117,25 @@ def evaluate(ctx):
                               {"id": r[0], "input": r[4][:4000], "panic": why}))
             else:
                 ctx.broken_ties.append(("harness goast decoder", f"{r[0]}: {why}"))
+    # ---- whole pipeline on the witness programs: Sem of the ANF the backend starts from against
+    # Go.Sem of the Go it emits (DCE included) — catches an effect dropped inside go_file
+    from props import c01
+    sem_lines = [f"{pid}|{st}\t{sx}" for pid, d in stages.items() for st, sx in d.items()]
+    sem = c01.run_sem(ctx, sem_lines) if sem_lines else {}
+    n_pipe = 0
+    for pid, d in stages.items():
+        a, g = sem.get(f"{pid}|anf"), sem.get(f"{pid}|go")
+        if a is None or g is None or a[0].endswith("error") or g[0].endswith("error"):
+            ctx.broken_ties.append(("sem driver", f"{pid}: {a} {g}"))
+            continue
+        if a[0] == "fuel" or g[0] == "fuel" or a[0].startswith("stuck"):
+            continue
+        n_pipe += 1
+        if (a[0], a[1]) != (g[0], g[1]):
+            found.append(({"oracle": "pipeline-anf-vs-go", "kind": sem_kind(a, g)},
+                          "the Go the backend emits (after DCE) does not behave like the ANF it was built from",
+                          {"id": pid, "src": srcs.get(pid), "anf": {"status": a[0], "stdout": vlib.unesc(a[1])[:400]},
+                           "go": {"status": g[0], "stdout": vlib.unesc(g[1])[:400]}}))
     lines = []
     for cid, c in cases.items():
         fuel = 40000 if c["stream"] == "synth" else 3000000
@@ -119,6 +144,7 @@ def evaluate(ctx):
 
     n = {"cases": 0, "tie_eq": 0, "in_contract": 0, "sem_compared": 0, "sem_equal": 0, "scope_checked": 0,
          "refeed_unchanged": 0, "refeed": 0, "fuel_skipped": 0, "stuck_input_skipped": 0}
+    contract = {}
     ooc = {}            # out-of-contract divergences, by reason (informational)
     ooc_samples = []
     diffs, samples, distinct = [], [], set()
@@ -170,6 +196,17 @@ def evaluate(ctx):
                     found.append(({"oracle": "go-rules", "kind": kind},
                                   f"the output of eliminate_dead_vars breaks a Go rule DCE exists for: {kind} ({errs[0]})",
                                   dict(payload, errors=errs[:5])))
+        # ---- contract predicates of the theorems, per stream (evaluated on the real input)
+        cs = contract.setdefault(c["stream"], {"cases": 0, "scope_clean": 0, "shapeOK": 0, "semOK(inertSyn true)": 0,
+                                                "semOK(inertSyn false)": 0, "all(static)": 0, "all(proved criterion)": 0})
+        sc_ok = not rin.get("scope")
+        cs["cases"] += 1
+        cs["scope_clean"] += sc_ok
+        cs["shapeOK"] += not rin.get("shape")
+        cs["semOK(inertSyn true)"] += not rin.get("semStatic")
+        cs["semOK(inertSyn false)"] += not rin.get("semStrict")
+        cs["all(static)"] += sc_ok and not rin.get("shape") and not rin.get("semStatic")
+        cs["all(proved criterion)"] += sc_ok and not rin.get("shape") and not rin.get("semStrict")
         # ---- behaviour: Go.Sem(output) = Go.Sem(input)
         reasons = []
         if rin.get("scope") or gin.get("undeclared") or gin.get("redeclared"):
@@ -210,8 +247,10 @@ def evaluate(ctx):
         "model_equals_implementation": n["tie_eq"], "model_diffs": len(diffs),
         "scope_rules_checked_on_output": n["scope_checked"],
         "inputs_inside_preservation_contract": n["in_contract"],
+        "contract_predicates_by_stream": contract,
         "gosem_compared": n["sem_compared"], "gosem_equal": n["sem_equal"],
         "gosem_input_status": status_in, "fuel_skipped": n["fuel_skipped"], "stuck_input_skipped": n["stuck_input_skipped"],
+        "pipeline_witnesses_compared(anf vs go)": n_pipe,
         "refeed_cases": n["refeed"], "refeed_unchanged(idempotent)": n["refeed_unchanged"],
         "outside_contract_divergences(informational)": ooc, "outside_contract_samples": ooc_samples,
         "samples": samples or [{"id": "none"}],
